@@ -10,13 +10,14 @@ import BromeliaVerif.Drv.Psm
 import BromeliaVerif.Drv.Ident
 import BromeliaVerif.Drv.Pend
 import BromeliaVerif.Drv.Outb
+import BromeliaVerif.Drv.Inb
 /-! Line-protocol driver: one operation per input line, one answer per output line.
 Built as the native executable `driver`; imports models, specifications and generated tables only. -/
 open BV.Drv
 
 def step (line : String) : String :=
   let ws := (line.splitOn " ").filter (· ≠ "")
-  let handlers : List (List String → Option String) := [opC17, opC18, opC20, opCodec, opC02, opCmd, opCont, opRoute, opCfg, opPsm, opIdent, opPend, opOutb]
+  let handlers : List (List String → Option String) := [opC17, opC18, opC20, opCodec, opC02, opCmd, opCont, opRoute, opCfg, opPsm, opIdent, opPend, opOutb, opInb]
   match handlers.findSome? (fun h => h ws) with
   | some r => r
   | none => "bad-op"
